@@ -253,6 +253,10 @@ class StmtMixin:
 
     def find_container_in(self, n):
         c = self.skip(n)
+        if c.get('kind') == 'CXXOperatorCallExpr':            # begin(c) + k: the container is in the iterator operand
+            for a in c.get('inner', [])[1:]:
+                g = self.find_container_in(a)
+                if g is not None: return g
         if c.get('kind') in ('CallExpr', 'CXXMemberCallExpr'):
             got = self.iter_container(c)
             if got is not None: return got
@@ -267,6 +271,10 @@ class StmtMixin:
 
     def find_container_type_in(self, n):
         c = self.skip(n)
+        if c.get('kind') == 'CXXOperatorCallExpr':
+            for a in c.get('inner', [])[1:]:
+                g = self.find_container_type_in(a)
+                if g is not None: return g
         if c.get('kind') in ('CallExpr', 'CXXMemberCallExpr'):
             got = self.container_type(c)
             if got is not None: return got
